@@ -152,3 +152,15 @@ chk("C20", "static analysis: MIR scan/walk templates, decision tables, loop rela
     "from the same ARGS constant.",
     "Trusted: rustc MIR, char::len_utf8 (std) vs encode_utf8 arms (C07), the &CStr type invariant for the walk. Not decided: "
     "the bytes of the resulting constants (that would need compile-time evaluation as an oracle).")
+chk("C11", "static analysis: MaybeUninit init-typestate (dominance on the pruned CFG) over macro expansions in a witness crate, protocol rules for ArrayBuilder",
+    "array::map!, from_fn! (typed and untyped), map_!, from_fn_!, collect_const! (plain, filter, flat_map, skip/take) and "
+    "string::from_iter! (str and char items) are expanded in a witness crate, also with closures containing break, "
+    "continue, return, panic! and a labelled break. For every assume_init site the rule requires: dominated by the true edge "
+    "of counter == LEN; every increment of the counter dominated (on the CFG pruned by the BuildArray/ComputeLength "
+    "discriminant) by a MaybeUninit::new store at that counter, or by a copy loop for variable steps; no other writer of "
+    "the counter - so no control flow in a closure can reach assume_init with an unwritten slot. Element i must be the closure "
+    "applied to input i; ArrayBuilder push/build/new/as_slice follow the inited protocol and only new/push/copies write "
+    "`inited`; map_! forgets the consumer only after next() returned None and then builds; both collect_const passes call the "
+    "same generated function and count identically.",
+    "Trusted: rustc MIR and macro expansion; macro hygiene keeps the counter/array unnameable from user tokens. Values "
+    "computed by user closures are opaque (marker functions).")
